@@ -145,6 +145,18 @@ func c16Classify(sn *c16Snap, cur *c16Model, pending []*c16Snap) string {
 		}
 		return false
 	}
+	// output keys are locked at signing time: a pending snapshot owns its keys
+	for _, p := range pending {
+		for _, t := range p.txs {
+			for _, o := range t.ver.Outputs {
+				for _, k := range o.Keys {
+					if _, ok := m.ghost[*k]; !ok {
+						m.ghost[*k] = t.hash
+					}
+				}
+			}
+		}
+	}
 	own := map[crypto.Hash]*big.Int{} // deposits of this snapshot so far, per asset
 	for _, t := range sn.txs {
 		if m.final[t.hash] {
